@@ -335,8 +335,9 @@ class Translator:
             return []
         if isinstance(s, ast.Pass):
             return []
-        if isinstance(s, ast.Expr) and isinstance(s.value, ast.Call) and ast.unparse(s.value.func) in sp.drop_calls:
-            return []
+        if isinstance(s, ast.Expr) and isinstance(s.value, ast.Call) and \
+                (ast.unparse(s.value.func) in sp.drop_calls or ast.unparse(s.value.func).startswith("logging.")):
+            return []          # log output is never part of a model
         if any(u.startswith(pfx) for pfx in sp.skip_prefixes):
             self.dropped.append(u.split("\n")[0][:80] + " ...")
             return []
